@@ -244,6 +244,11 @@ def main():
             if ok: nvalid += 1
             else:
                 r['status'] = 'inconclusive'; r['notes'].append('ENCODING-MISMATCH on witness schedule: ' + verdict[:200])
+                try:    # keep the diverging witness for debugging (tools/dbg.py, tools/showviol.py)
+                    wp = os.path.join(os.environ.get('VERIF_REPLAY_DIR', os.path.join(VERIF, 'scratch', 'replay')), '%s_%s_witness.json' % (prop, r['name']))
+                    os.makedirs(os.path.dirname(wp), exist_ok=True)
+                    json.dump({'property': prop, 'scenario': spec, 'violation': {'oracle': 'witness', 'clauses': [], 'schedule': r['witness']}, 'native_run': rr}, open(wp, 'w'), indent=1)
+                except Exception: pass
                 print('ENCODING-MISMATCH property=%s scenario=%s: witness schedule not followed by the real build (%s)' % (prop, r['name'], verdict[:160]))
             r['witness'].pop('sites', None)
     known = load_known()
